@@ -145,6 +145,9 @@ pub struct ModelSpec<T: HScalar> {
     /// hand-written only: the model computes from a copy of the parameters that only set_params fills (the trait documentation names
     /// set_params as the place to cache calculations); before the first set_params it evaluates at all-zero parameters
     pub lazy: bool,
+    /// builder-made only: the derivative closures of single-parameter functions return x.len() + delta elements (a model
+    /// function that violates the shape contract: the library must report an error value, never panic)
+    pub deriv_len_delta: i64,
 }
 
 impl<T: HScalar> ModelSpec<T> {
@@ -163,6 +166,7 @@ impl<T: HScalar> ModelSpec<T> {
                 .filter(|f| !f.is_null())
                 .map(|a| a.as_array().unwrap().iter().map(sc::<T>).collect()),
             lazy: v.get("lazy").and_then(|b| b.as_bool()).unwrap_or(false),
+            deriv_len_delta: v.get("deriv_len_delta").and_then(|b| b.as_i64()).unwrap_or(0),
         }
     }
 }
@@ -286,6 +290,7 @@ pub fn build_separable<T: HScalar>(spec: &ModelSpec<T>) -> SeparableModel<T> {
     let names: Vec<String> = (0..spec.nparams).map(|i| format!("p{i}")).collect();
     let mut b = SeparableModelBuilder::<T>::new(names.clone());
     let q = spec.quant;
+    let dl = spec.deriv_len_delta;
     for basis in spec.basis.iter() {
         let deps = basis.deps();
         let bs = basis.clone();
@@ -301,7 +306,13 @@ pub fn build_separable<T: HScalar>(spec: &ModelSpec<T>) -> SeparableModel<T> {
                         x.map(|xi| quant(b0.value(xi, &[a]), q))
                     })
                     .partial_deriv(names[deps[0]].clone(), move |x: &DVector<T>, a: T| {
-                        x.map(|xi| quant(b1.dvalue(0, xi, &[a]), q))
+                        let v = x.map(|xi| quant(b1.dvalue(0, xi, &[a]), q));
+                        if dl == 0 {
+                            v
+                        } else {
+                            let n = (v.len() as i64 + dl).max(0) as usize;
+                            DVector::from_fn(n, |i, _| if v.is_empty() { a } else { v[i % v.len()] })
+                        }
                     });
             }
             2 => {
